@@ -172,9 +172,9 @@ func init() {
 			"hosts given to FlattenProperties carry a specific type name (the generic names are exercised through the typed functions)"},
 		Bound: func(tier string) string {
 			if tier == "thorough" {
-				return "single positions complete; addressing lists of length <= 4; addressing lists of 8..65 members of distinct ids (3 without id); the same identities in every ordered pair of addressing lists; plain IRIs in other spellings (as:Public, the full Public IRI, an IPv6 literal host) among the entries"
+				return "single positions complete; addressing lists of length <= 4; addressing lists of 8..65 members of distinct ids (3 without id); the same identities in every ordered pair of addressing lists; plain IRIs in other spellings (as:Public, the full Public IRI, an IPv6 literal host) among the entries; families added after round 5: DESIGN.md 8.11"
 			}
-			return "single positions complete; addressing lists of length <= 3; addressing lists of 8..65 members of distinct ids (3 without id); the same identities in every ordered pair of addressing lists; plain IRIs in other spellings (as:Public, the full Public IRI, an IPv6 literal host) among the entries"
+			return "single positions complete; addressing lists of length <= 3; addressing lists of 8..65 members of distinct ids (3 without id); the same identities in every ordered pair of addressing lists; plain IRIs in other spellings (as:Public, the full Public IRI, an IPv6 literal host) among the entries; families added after round 5: DESIGN.md 8.11"
 		},
 		DeadlineQuick: 5 * time.Minute,
 		Run:           c16Run,
@@ -585,6 +585,28 @@ func c16Run(c *engine.Ctx) {
 				}, func(t *engine.T) {
 					t.Distinct(true)
 					c16Check(t, h, f.Term, setList(f, es), judgeList(f, es, fmt.Sprintf("long=%d", N)))
+				})
+			}
+		}
+		// two different ids that collide under a common 32-bit hash, in one addressing list (as IRI and as embedded object)
+		for _, pos := range c16Lists {
+			f := *st.Field(pos)
+			for k, pr := range universe.CollidingIDs() {
+				k, pr := k, pr
+				es := []c16Entry{
+					{name: "iri-x", ident: string(pr[0]), want: "iri:" + string(pr[0]), mk: func() ap.Item { return pr[0] }},
+					{name: "*obj-y", ident: string(pr[1]), want: "iri:" + string(pr[1]), mk: func() ap.Item { return &ap.Object{ID: pr[1], Type: ap.NoteType} }},
+					{name: "iri-z", ident: "https://example.com/z", want: "iri:https://example.com/z", mk: func() ap.Item { return ap.IRI("https://example.com/z") }},
+				}
+				if k%2 == 1 {
+					es[0], es[1] = es[1], es[0]
+				}
+				class := "C16|" + h.name + "|" + f.Term
+				c.Do(class, func() string {
+					return fmt.Sprintf("%s with %s = two ids that collide under a 32-bit hash (pair #%d) and a third", h.name, f.Term, k)
+				}, func(t *engine.T) {
+					t.Distinct(true)
+					c16Check(t, h, f.Term, setList(f, es), judgeList(f, es, "colliding-ids"))
 				})
 			}
 		}
